@@ -314,7 +314,7 @@ func (C02) ID() string { return "C02" }
 func (C02) Explore(x *kernel.Explorer, seed uint64) {
 	r := kernel.NewRNG(seed, 0xc02)
 	for i := 0; i < 3 && !x.Expired(); i++ {
-		plan := &kernel.Plan{Prop: "C02", Seed: kernel.Mix(seed, uint64(i)), Swarm: map[string]int64{"tls": int64(r.Intn(2)), "ksv2": int64(r.Intn(3) / 2), "mysql": int64(r.Intn(3) / 2), "depeof": int64(r.Intn(2)), "rawmy": int64(r.Intn(2)), "reexec": int64(r.Intn(2)), "wyield": int64(r.Intn(2)), "chunk": int64(r.Intn(4)), "conc": int64(r.Intn(2))}}
+		plan := &kernel.Plan{Prop: "C02", Seed: kernel.Mix(seed, uint64(i)), Swarm: map[string]int64{"tls": int64(r.Intn(2)), "ksv2": int64(r.Intn(3) / 2), "mysql": int64(r.Intn(3) / 2), "depeof": int64(r.Intn(2)), "rawmy": int64(r.Intn(2)), "reexec": int64(r.Intn(2)), "wyield": int64(r.Intn(2)), "chunk": int64(r.Intn(4)), "conc": int64(r.Intn(2)), "colowner": int64(r.Intn(2))}}
 		n := 2 + r.Intn(6)
 		for j := 0; j < n; j++ {
 			plan.Ops = append(plan.Ops, kernel.Op{ID: j + 1, Kind: "cross", A: []int64{
@@ -387,6 +387,9 @@ func (C02) Run(t *testing.T, plan *kernel.Plan, keepLog bool) *kernel.Result {
 		if plan.Sw("conc") == 1 && plan.Sw("ksv2") == 0 {
 			c02Conc(w, cw, plan, "C02")
 		}
+		if plan.Sw("colowner") == 1 && !w.Res.Cut {
+			c02ColumnOwner(w, plan, rng)
+		}
 		// different clients always get different keys
 		seen := map[string]string{}
 		for _, c := range []string{owner, stranger} {
@@ -456,6 +459,15 @@ func c03Mutations(r *kernel.RNG, v, other []byte, exhaustive bool) [][]byte {
 				binary.LittleEndian.PutUint16(m[off:], s)
 				add(m)
 			}
+		}
+	}
+	// 8-byte fields further into the value (the data length of an AcraStruct follows the public key and the
+	// wrapped key) set to values at the edge of the signed range, where adding a header size wraps around
+	for off := 64; off+8 <= len(v) && off < 220; off++ {
+		for _, s := range []uint64{1<<63 - 1, 1<<63 - 1 - uint64(r.Intn(172)), 1 << 63, ^uint64(0)} {
+			m := append([]byte{}, v...)
+			binary.LittleEndian.PutUint64(m[off:], s)
+			add(m)
 		}
 	}
 	// 2-byte length fields set to values just below the length of the value (inner lengths count from
